@@ -379,13 +379,21 @@ func R21() Rule {
 		// Create persists the definition
 		create := P.MustFunc(core.PkgBttest, "LeveldbDiskStorage.Create")
 		okC := false
-		for _, ci := range core.AllCalls(create) {
-			if ci.Static == set {
-				okC = true
+		crScope := P.Scope(create, func(f *ssa.Function) bool { return core.PkgPathOf(f) != core.PkgBttest || f == set })
+		crSet := setOf(crScope)
+		for _, ci := range core.CallsIn(crScope, func(ci *core.CallInfo) bool { return ci.Static == set }) {
+			for _, site := range P.ExecSites(create, ci.Instr, crSet) {
+				if site.Parent() != create {
+					continue
+				}
+				dom := true
 				for _, r := range returnsIn(create) {
-					if !core.InstrDominates(ci.Instr, r) {
-						okC = false
+					if !core.InstrDominates(site, r) {
+						dom = false
 					}
+				}
+				if dom {
+					okC = true
 				}
 			}
 		}
@@ -395,13 +403,19 @@ func R21() Rule {
 		del := P.MustFunc(core.PkgBttest, "(*server).DeleteTable")
 		c.Fn(core.FuncName(del))
 		okD := false
-		for _, ci := range core.AllCalls(del) {
-			if ci.Method != nil && ci.Method.Name() == "DeleteTableMeta" {
+		delScope := P.Scope(del, func(f *ssa.Function) bool { return core.PkgPathOf(f) != core.PkgBttest })
+		delSet := setOf(delScope)
+		isDTM := func(ci *core.CallInfo) bool { return ci.Method != nil && ci.Method.Name() == "DeleteTableMeta" }
+		for _, ci := range core.CallsIn(delScope, isDTM) {
+			for _, site := range P.ExecSites(del, ci.Instr, delSet) {
+				if site.Parent() != del {
+					continue
+				}
 				okD = true
 				for _, r := range returnsIn(del) {
-					if ie, _ := isErrorReturn(r); !ie && !core.InstrDominates(ci.Instr, r) {
+					if ie, _ := isErrorReturn(r); !ie && !core.InstrDominates(site, r) {
 						// the call sits under the `if d, ok := storage.(deleter)` edge; require reachability instead
-						if !core.InstrReaches(ci.Instr, r) {
+						if !core.InstrReaches(site, r) {
 							okD = false
 						}
 					}
@@ -411,9 +425,13 @@ func R21() Rule {
 		impl := P.Func(core.PkgBttest, "LeveldbDiskStorage.DeleteTableMeta")
 		okImpl := false
 		if impl != nil && impl.Blocks != nil {
-			for _, ci := range core.AllCalls(impl) {
+			implScope := P.Scope(impl, func(f *ssa.Function) bool { return core.PkgPathOf(f) != core.PkgBttest })
+			for _, ci := range core.CallsIn(implScope, func(*core.CallInfo) bool { return true }) {
 				if ci.IsFunc("os", "Remove") || ci.IsFunc("os", "RemoveAll") {
-					if s, isS := suffixConst(ci.Common.Args[0]); isS && strings.HasSuffix(s, ".table.proto") {
+					if P.AllOrigins(ci.Common.Args[0], setOf(implScope), func(o ssa.Value) bool {
+						s, isS := suffixConst(o)
+						return isS && strings.HasSuffix(s, ".table.proto")
+					}) {
 						okImpl = true
 					}
 				}
@@ -439,10 +457,8 @@ func R21() Rule {
 		// otherwise a CreateTable of the same name can slip in and have its fresh metadata removed
 		la := Locks(P)
 		okLocked := false
-		for _, ci := range core.AllCalls(del) {
-			if ci.Method != nil && ci.Method.Name() == "DeleteTableMeta" {
-				okLocked = la.AbsAt(ci.Instr)["bttest.server.mu"] == mW
-			}
+		for _, ci := range core.CallsIn(delScope, isDTM) {
+			okLocked = la.AbsAt(ci.Instr)["bttest.server.mu"] == mW
 		}
 		if okD {
 			c.Check(okLocked, "R21", "D3/metadata-removed-under-registry-lock", del.Pos(), "DeleteTableMeta runs while server.mu is held (same critical section as the registry delete)", "D3: the metadata removal runs after server.mu was released: a CreateTable of the same name admitted in between gets its fresh metadata file removed and is gone after a restart")
@@ -452,7 +468,7 @@ func R21() Rule {
 		// ---- D4b GetTables hands out one freshly allocated message per metadata file
 		gt := P.MustFunc(core.PkgBttest, "LeveldbDiskStorage.GetTables")
 		okFresh, nApp := true, 0
-		for _, f := range core.Family(gt) {
+		for _, f := range P.Scope(gt, func(f *ssa.Function) bool { return core.PkgPathOf(f) != core.PkgBttest }) {
 			for _, b := range f.Blocks {
 				for _, in := range b.Instrs {
 					call, ok := in.(*ssa.Call)
